@@ -24,6 +24,7 @@ type sentPacket struct {
 }
 
 type recTransport struct {
+	advIP    net.IP
 	mu       sync.Mutex
 	sent     []sentPacket
 	packetCh chan *memberlist.Packet
@@ -35,6 +36,9 @@ func newRecTransport() *recTransport {
 }
 
 func (t *recTransport) FinalAdvertiseAddr(ip string, port int) (net.IP, int, error) {
+	if t.advIP != nil {
+		return t.advIP, 7946, nil
+	}
 	return net.ParseIP("127.0.0.1"), 7946, nil
 }
 func (t *recTransport) WriteTo(b []byte, addr string) (time.Time, error) {
@@ -79,12 +83,15 @@ type qnodeOpts struct {
 	keyring         *memberlist.Keyring
 	respLimit       int
 	events          bool // create an EventCh (buffered 4096)
+	logw            io.Writer
+	advIP           net.IP // advertised (= local) address; default 127.0.0.1 in 16-byte form
 }
 
 func newQNode(o qnodeOpts) (*qnode, error) {
 	conf := serf.DefaultConfig()
 	conf.Init()
 	tr := newRecTransport()
+	tr.advIP = o.advIP
 	conf.NodeName = o.name
 	if conf.NodeName == "" {
 		conf.NodeName = "self"
@@ -105,6 +112,9 @@ func newQNode(o qnodeOpts) (*qnode, error) {
 	mc.Logger = log.New(io.Discard, "", 0)
 	mc.Keyring = o.keyring
 	conf.Logger = log.New(io.Discard, "", 0)
+	if o.logw != nil {
+		conf.Logger = log.New(o.logw, "", 0)
+	}
 	conf.EnableNameConflictResolution = o.conflictResolve
 	conf.ReapInterval = time.Hour
 	conf.ReconnectInterval = time.Hour
@@ -151,4 +161,40 @@ func serfMsgOf(p sentPacket) []byte {
 		return b[1:]
 	}
 	return nil
+}
+
+// lineLog collects the node's log lines (the vote outcome of resolveNodeConflict is only visible there).
+type lineLog struct {
+	mu    sync.Mutex
+	lines []string
+	part  string
+}
+
+func (l *lineLog) Write(p []byte) (int, error) {
+	l.mu.Lock()
+	defer l.mu.Unlock()
+	l.part += string(p)
+	for {
+		i := -1
+		for j := 0; j < len(l.part); j++ {
+			if l.part[j] == '\n' {
+				i = j
+				break
+			}
+		}
+		if i < 0 {
+			break
+		}
+		l.lines = append(l.lines, l.part[:i])
+		l.part = l.part[i+1:]
+	}
+	return len(p), nil
+}
+
+func (l *lineLog) take() []string {
+	l.mu.Lock()
+	defer l.mu.Unlock()
+	out := l.lines
+	l.lines = nil
+	return out
 }
